@@ -1193,6 +1193,13 @@ class Repo:
                         v_ = _val(e)
                         if v_ is not None:
                             table[name] = v_
+            # NAME = bytes.fromhex("1f8b"): the bytes literal it spells
+            for name, e in mod.consts.items():
+                if name not in table and counts.get(name, 0) == 1 and isinstance(e, ast.Call) and norm(e.func) == "bytes.fromhex" and len(e.args) == 1 and isinstance(e.args[0], ast.Constant) and isinstance(e.args[0].value, str):
+                    try:
+                        table[name] = bytes.fromhex(e.args[0].value)
+                    except ValueError:
+                        pass
             simple[mname] = table
         for mname, mod in self.modules.items():
             visible = dict(simple[mname])
